@@ -34,12 +34,21 @@ pub fn shards(tier: &str) -> Vec<String> {
     v.extend(hist::shards_for(&["zbdds"], &["n32c16t1"], p));
     // the multi-threaded recursion (split depth 4) on one worker, ample and tight (failing) stores
     v.extend(hist::shards_for(&["bdd", "bcdd", "zbdd"], &["n12c16t1d4"], p));
+    // the background collector thread (C07's script G1, all schedules with <= 2 preemptions): reference counts,
+    // node count after teardown and the full capacity afterwards
+    for part in 0..16 {
+        v.push(format!("bg:bdd:g1p{part}:b2"));
+    }
     // every action issued from inside a session of another manager
     v.extend(hist::shards_for(&["bdd", "zbdd", "mtbdd"], &["n32c16t1x"], p));
     v
 }
 
 pub fn run(ctx: &mut Ctx) {
+    if let Some(rest) = ctx.shard.clone().strip_prefix("bg:") {
+        ctx.shard = rest.to_string();
+        return super::c07::run(ctx);
+    }
     let depth = if ctx.thorough() { 5 } else { 4 };
     hist::run_shard(ctx, Prop::C05, depth);
 }
